@@ -44,7 +44,7 @@ let () =
            | Parse_error m -> "ERR " ^ m
            | Stack_overflow -> "ERR stack overflow"
            | e -> "ERR " ^ Printexc.to_string e in
-         print_string r; print_char '\n'
+         print_string r; print_char '\n'; flush stdout
        end
      done
    with End_of_file -> ());
